@@ -464,6 +464,96 @@ def run(ck, P):
                   "'%s' (derived from '%s') is dereferenced at line %d after m_mem_unref(%s) at line %d may have freed it" % (bad[1], x, bad[0].line, x, u.line))
     ck.need(nu >= 5, "only %d local releases found" % nu)
 
+    # the hook may have deregistered (and, with the last user reference, destroyed) the module: start()/stop() see it as -ENOENT from
+    # optional_hook and must hand a non-zero result back, because their public callers touch the module again only under `ret == 0`
+    for fname in ("start", "stop"):
+        fx = P.fn(fname, "Lib/core/mod.c")
+        ck.analysed(fx)
+        badr = None
+        nr = 0
+        hooks_ = [e for e in fx.events() if e.kind in ("assign", "decl") and e.rhs is not None and strip(e.rhs).get("callee") == "optional_hook"]
+        ck.need(hooks_, "%s no longer binds the result of optional_hook" % fname)
+        hv = S(hooks_[0].lhs)
+        for path in fx.paths():
+            evs_ = list(rules.path_events(fx, path))
+            if hooks_[0] not in evs_:
+                continue
+            asm = rules.path_assumes_after(path, hooks_[0])
+            # the hook's verdict on this path: 0 (fine), -1 (refused start) or "the module is gone" — spelt as a switch case, an if chain or an else
+            ok0 = asm.get("(%s == 0)" % hv) is True or asm.get(hv) is False
+            okm1 = asm.get("(%s == -1)" % hv) is True
+            gone = asm.get("(%s == -2)" % hv) is True or (not ok0 and not okm1 and (asm.get(hv) is True or asm.get("(%s == 0)" % hv) is False))
+            if not gone:
+                continue
+            rets_ = [e for e in evs_ if e.kind == "ret" and e.e is not None]
+            if not rets_:
+                continue
+            nr += 1
+            if cval(rets_[-1].e) == 0:
+                badr = path
+        ck.ob("C04.5-USE-AFTER-UNREF", fx.site("-ENOENT handed back"), badr is None and nr > 0,
+              "%d path(s) on which the hook deregistered the module return a non-zero result" % nr if badr is None else
+              "%s() returns 0 although its hook deregistered the module (optional_hook == -ENOENT): m_mod_%s() then walks mod->bound_mods of a module "
+              "that may already be freed" % (fname, fname), path=rules.fmt_path(fx, badr) if badr else None)
+    for fname in ("m_mod_start", "m_mod_stop", "m_mod_pause", "m_mod_resume"):
+        fx = P.fn(fname, "Lib/core/mod.c")
+        ck.analysed(fx)
+        inner = [e for e in fx.events() if e.kind in ("decl", "assign") and e.rhs is not None and strip(e.rhs).get("callee") in ("start", "stop")]
+        ck.need(len(inner) == 1, "%s no longer binds the result of start()/stop()" % fname)
+        rv_ = S(inner[0].lhs)
+        uses = [e for e in fx.events() if e is not inner[0] and fx.ev_dominates(inner[0], e) and e.kind != "ret" and
+                any(x.get("k") == "var" and x.get("name") == fx.params[0]["name"] for x in walk(e.e if e.kind != "decl" else (e.rhs or {})))]
+        oku = all(has(X.facts(fx, e, passed=True), rv_, False) or has(X.facts(fx, e, passed=True), "(%s == 0)" % rv_) for e in uses)
+        ck.ob("C04.5-USE-AFTER-UNREF", fx.site("module touched only after success"), oku,
+              "%s touches the module after %s() only under %s == 0 (%d use(s))" % (fname, strip(inner[0].rhs)["callee"], rv_, len(uses)) if oku else
+              "%s uses the module after %s() without testing its result: the hook may have destroyed it" % (fname, strip(inner[0].rhs)["callee"]))
+
+    # ------------------------------------------------------------------ allocation sizes
+    ck.rule("C04.8-ALLOC-SIZE", "R-LAYOUT: a block obtained with a constant size (m_mem_new / memhook._calloc / _malloc) and bound to a pointer to a record "
+            "is at least as large as that record (sizeof of the pointer instead of the pointee is the classic slip): later field stores stay inside "
+            "the block", floor=10)
+    nal = 0
+    for f in P.funcs:
+        for ev in f.events():
+            if ev.kind not in ("decl", "assign") or ev.rhs is None or ev.lhs is None:
+                continue
+            r_ = strip(ev.rhs)
+            if r_["k"] != "call":
+                continue
+            cal = r_.get("callee") or S(r_["fn"])
+            if cal == "m_mem_new":
+                n_ = cval(r_["args"][0])
+            elif cal.endswith("_calloc") or cal == "calloc":
+                a_, b_ = cval(r_["args"][0]), cval(r_["args"][1])
+                n_ = a_ * b_ if a_ is not None and b_ is not None else None
+            elif cal.endswith("_malloc") or cal == "malloc":
+                n_ = cval(r_["args"][0])
+            else:
+                continue
+            if n_ is None:
+                continue
+            lt = (strip(ev.lhs).get("ct") or strip(ev.lhs).get("t") or "") if ev.kind == "assign" else (ev.e.get("ct") or ev.e.get("t") or "")
+            lt2 = (strip(ev.lhs).get("t") or "") if ev.kind == "assign" else (ev.e.get("t") or "")
+            rec = None
+            for cand_t in (lt2, lt):
+                base = cand_t.replace("const ", "").strip()
+                if base.count("*") != 1:
+                    continue
+                base = base.replace("*", "").replace("struct ", "").strip()
+                rec = P.records_by_unit.get((f.unit, base)) or P.records.get(base)
+                if rec:
+                    break
+            if not rec or not rec.get("size"):
+                continue
+            nal += 1
+            ck.analysed(f)
+            ok_ = n_ >= rec["size"]
+            ck.ob("C04.8-ALLOC-SIZE", f.site("%s = %s(%d)" % (_tail(S(ev.lhs)), cal.split(".")[-1], n_)), ok_,
+                  "%d bytes for a '%s' of %d bytes" % (n_, rec["name"], rec["size"]) if ok_ else
+                  "%d bytes are allocated for '%s', whose record '%s' needs %d: the fields stored later (by this function or by the consumer of the object) "
+                  "land beyond the block" % (n_, S(ev.lhs), rec["name"], rec["size"]))
+    ck.need(nal >= 10, "only %d constant-size record allocations found" % nal)
+
     ck.rule("C04.5-REG-REF-UNDER-LOCK", "R-PAIR: the call that drops a module's registration reference (removal from the context's module map, whose "
             "destructor is mem_dtor) happens only while the function holds its own temporary reference on that module and keeps using it afterwards", floor=1)
     nrm = 0
